@@ -10,6 +10,9 @@ use std::net::{IpAddr, Ipv4Addr, Ipv6Addr};
 pub enum RouteKind {
     Forward(usize),
     Nx,
+    /// type forward with no dns-servers (the documented default is the empty list); what a
+    /// query under such a route gets is not documented and not judged
+    ForwardNowhere,
 }
 
 #[derive(Clone, Debug, Serialize, Deserialize)]
@@ -237,6 +240,7 @@ impl PlanB {
                     s.push_str("    type: forward\n");
                     s.push_str(&format!("    dns-servers: [\"{}\"]\n", self.upstreams[*u]));
                 }
+                RouteKind::ForwardNowhere => s.push_str("    type: forward\n"),
             }
         }
         s
@@ -736,7 +740,22 @@ pub fn generate(seed: u64, g: &GenB) -> PlanB {
         }
     }
     if shape == "hostile" {
+        let mut k = Rng::new(seed, "plan-b-nowhere");
+        if k.chance(0.15) {
+            /* one forward route loses its servers */
+            let cands: Vec<usize> = p.routes.iter().enumerate().filter(|(_, r)| matches!(r.kind, RouteKind::Forward(_)) && !r.suffixes.is_empty()).map(|(i, _)| i).collect();
+            if !cands.is_empty() {
+                let i = *k.pick(&cands);
+                p.routes[i].kind = RouteKind::ForwardNowhere;
+            }
+        }
         add_hostile(&mut p, &mut r);
+        let nowhere: Vec<bool> = p.queries.iter().map(|q| matches!(p.route_for(&q.qname), Some(RouteKind::ForwardNowhere))).collect();
+        for (q, n) in p.queries.iter_mut().zip(nowhere) {
+            if n && !q.liveness_probe {
+                q.flood = true;
+            }
+        }
     }
     p.queries.sort_by_key(|q| q.at_ms);
     p
@@ -856,9 +875,34 @@ fn add_cache_followups(p: &mut PlanB, r: &mut Rng) {
         }
     }
     p.queries.extend(extra);
+    /* twins: a second query with the same key while the first is still being resolved; the
+     * first upstream transmission for the key is answered seconds later than the second */
+    let n = p.queries.len();
+    let mut twins = vec![];
+    let mut k = Rng::new(p.seed, "plan-b-twins");
+    for i in 0..n.min(8) {
+        if !k.chance(0.3) || p.queries[i].tcp || p.queries[i].ttl_boundary.is_some() {
+            continue;
+        }
+        let slow = *k.pick(&[1200u64, 2500, 4000]);
+        let up = UpBehaviour::Pattern { mask: 0b00011, delays_ms: vec![slow, *k.pick(&[5u64, 20, 200]), 5, 5, 5] };
+        let ttl = *k.pick(&[0u32, 1, 1, 2, 3]);
+        let q = &mut p.queries[i];
+        q.up = up.clone();
+        q.ans.ttl_mode = 1;
+        q.ans.fixed_ttl = ttl;
+        q.dup_in = false;
+        let mut t = q.clone();
+        t.at_ms = q.at_ms + *k.pick(&[0u64, 1, 30, 300]);
+        port += 1;
+        t.src_port = port;
+        t.id = k.below(65536) as u16;
+        t.ttl_boundary = None;
+        twins.push(t);
+    }
+    p.queries.extend(twins);
 }
 
-/// C16: floods of refused queries, quiet sources, and cookie exemptions.
 /// C16: hundreds of refused sources flood at once (the situation the limiter exists
 /// for); then a source that has never sent anything asks once, and after a silence longer
 /// than the refill period one of the flooders asks once more.
